@@ -238,14 +238,14 @@ func init() {
 	opEntry("ThrottleTime(0)", TimeDriven|MultiFeed, nil, func(b *B) op { return ro.ThrottleTime[int](0) }, "ThrottleTime")
 
 	// ------------------------------------------------------------ connectable / share over a cold source, single subscriber
-	opEntry("Share", MultiFeed|NoChain, ident, func(b *B) op { return ro.Share[int]() })
-	opEntry("ShareReplay(2)", MultiFeed|NoChain|KeepsSource, ident, func(b *B) op { return ro.ShareReplay[int](2) }, "ShareReplay")
-	opEntry("ShareWithConfig(behavior)", MultiFeed|NoChain, m1(func(vs []int, end rec.Kind) ([]string, Term) {
+	opEntry("Share", MultiFeed|NoChain|Hot, ident, func(b *B) op { return ro.Share[int]() })
+	opEntry("ShareReplay(2)", MultiFeed|NoChain|KeepsSource|Hot, ident, func(b *B) op { return ro.ShareReplay[int](2) }, "ShareReplay")
+	opEntry("ShareWithConfig(behavior)", MultiFeed|NoChain|Hot, m1(func(vs []int, end rec.Kind) ([]string, Term) {
 		return append(ri([]int{-1}), ri(vs)...), fwd(end)
 	}), func(b *B) op {
 		return ro.ShareWithConfig(ro.ShareConfig[int]{Connector: func() ro.Subject[int] { return ro.NewBehaviorSubject(-1) }, ResetOnError: true, ResetOnComplete: true, ResetOnRefCountZero: true})
 	}, "ShareWithConfig")
-	opEntry("ShareReplayWithConfig(2)", MultiFeed|NoChain, ident, func(b *B) op {
+	opEntry("ShareReplayWithConfig(2)", MultiFeed|NoChain|Hot, ident, func(b *B) op {
 		return ro.ShareReplayWithConfig[int](2, ro.ShareReplayConfig{ResetOnRefCountZero: true})
 	}, "ShareReplayWithConfig")
 
